@@ -1563,8 +1563,8 @@ func (set *CharSet) Analyze() CharClassAnalysisResults {
 		// everything ASCII is included.
 		return CharClassAnalysisResults{
 			OnlyRanges:                      true,
-			AllNonAsciiContained:            lastValueExclusive <= unicode.MaxASCII,
-			AllAsciiContained:               firstValueInclusive >= unicode.MaxASCII,
+			AllNonAsciiContained:            lastValueExclusive <= unicode.MaxASCII+1,
+			AllAsciiContained:               firstValueInclusive > unicode.MaxASCII,
 			ContainsNoAscii:                 firstValueInclusive == 0 && set.ranges[0].Last >= unicode.MaxASCII,
 			ContainsOnlyAscii:               false,
 			LowerBoundInclusiveIfOnlyRanges: firstValueInclusive,
@@ -1578,8 +1578,8 @@ func (set *CharSet) Analyze() CharClassAnalysisResults {
 		OnlyRanges:                      true,
 		AllNonAsciiContained:            false,
 		AllAsciiContained:               firstValueInclusive == 0 && set.ranges[0].Last >= unicode.MaxASCII && !set.HasSubtraction(),
-		ContainsOnlyAscii:               lastValueExclusive <= unicode.MaxASCII,
-		ContainsNoAscii:                 firstValueInclusive >= unicode.MaxASCII,
+		ContainsOnlyAscii:               lastValueExclusive <= unicode.MaxASCII+1,
+		ContainsNoAscii:                 firstValueInclusive > unicode.MaxASCII,
 		LowerBoundInclusiveIfOnlyRanges: firstValueInclusive,
 		UpperBoundExclusiveIfOnlyRanges: lastValueExclusive,
 	}
